@@ -14,6 +14,7 @@ MAXSTEPS = 400000
 import os as _os, time as _time
 EVAL_BUDGET_S = int(_os.environ.get("NX_EVAL_BUDGET", "60"))
 _ACTIVE = [0, 0.0]          # evaluations in progress, their common deadline
+FROM_VARIANTS = set()       # (enum path, variant) pairs that are the enum's own From<payload> conversion
 
 
 DISCR_DOM = {}      # ('discr', value term) -> rangeset of the discriminant values of the value's enum type
@@ -67,6 +68,8 @@ def P(name):
 def fld(base, name):
     if base[0] == "tuple" and name.isdigit() and int(name) < len(base[1]):
         return base[1][int(name)]
+    if base[0] == "closure" and name.isdigit() and int(name) < len(base[2]):
+        return base[2][int(name)]          # a closure value is the tuple of its captures
     if base[0] == "ite":
         return ite(base[1], fld(base[2], name), fld(base[3], name))
     if base[0] == "adt":
@@ -481,6 +484,10 @@ def norm_arith(t):
         if op in COMMUTATIVE and repr(b) < repr(a):
             return ("bin", op, b, a, ty)
         return t
+    if k == "call" and len(t) == 3 and len(t[2]) == 1 and isinstance(t[1], str) and "::" in t[1] and tuple(t[1].rsplit("::", 1)) in FROM_VARIANTS:
+        return ("conv", t[2][0])          # the variant's constructor used as a function (`map_err(Enum::Variant)`)
+    if k == "adt" and len(t) == 4 and len(t[3]) == 1 and (t[1], t[2]) in FROM_VARIANTS:
+        return ("conv", norm_arith(t[3][0][1]))          # Enum::Variant(e) where that is the enum's From<typeof e>: the `?` conversion
     if k == "date" and len(t) == 3 and isinstance(t[1], tuple) and is_c(t[1]) and isinstance(t[1][1], int):
         return ("date", None, t[2] + t[1][1])          # a constant day count is part of the day number
     if k == "cast" and len(t) == 4:
@@ -704,7 +711,12 @@ class Evaluator:
         e = proj[0]
         if e == "*":
             if base[0] == "mref":
-                raise Undecided("write through a nested mutable reference")
+                if proj[1:]:
+                    raise Undecided("write through a nested mutable reference")
+                # `*captured = v` where the capture borrows a local of another frame: the holder is unchanged; the store is
+                # recorded as an effect (the borrowed local lives in the caller's frame, out of this evaluation's reach)
+                self.effects.append(("<store through a captured &mut>", (base, val)))
+                return base
             return self._update(base, proj[1:], val)
         if isinstance(e, dict) and "last" in e:
             return ("upd_last", base, self._update(("last", base), proj[1:], val))
